@@ -57,6 +57,7 @@ func shapeType(shape, n int) (reflect.Type, bool) {
 
 type regEnt struct {
 	h       ecs.Entity
+	parent  ecs.Entity     // relation target created together with the entity (relnew)
 	vals    map[int][]byte // type index -> bytes
 	bornAt  int            // number of registered types when the entity's first table was created
 	crossed bool
@@ -398,6 +399,52 @@ func (r *regWorld) apply(op regOp) string {
 			r.w.RemoveEntity(r.ents[i].h)
 			r.ents[i] = nil
 		}
+	case "relnew":
+		// a parent and a child carrying only the newest relation type: the same relation node every
+		// time, so that a table retired earlier is reused
+		rt := -1
+		for t := nt - 1; t >= 0; t-- {
+			if r.isRel[t] {
+				rt = t
+				break
+			}
+		}
+		if rt < 0 {
+			return ""
+		}
+		e := &regEnt{vals: map[int][]byte{rt: make([]byte, r.types[rt].Size())}, bornAt: nt}
+		if p := core.Call(func() {
+			e.parent = r.w.NewEntity()
+			e.h = ecs.NewBuilder(r.w, r.ids[rt]).WithRelation(r.ids[rt]).New(e.parent)
+		}); p != nil {
+			return fmt.Sprintf("creating a parent and a child with relation id %d panicked: %v", rt, p)
+		}
+		r.relTargets = true
+		if len(r.ents) < 8 {
+			r.ents = append(r.ents, e)
+		} else {
+			old := r.ents[op.E%8]
+			if old != nil {
+				r.w.RemoveEntity(old.h)
+			}
+			r.ents[op.E%8] = e
+		}
+	case "retire":
+		// remove a child and then its parent: the child's table is retired for reuse
+		for i, e := range r.ents {
+			if e == nil || e.parent.IsZero() {
+				continue
+			}
+			if p := core.Call(func() {
+				r.w.RemoveEntity(e.h)
+				r.w.RemoveEntity(e.parent)
+			}); p != nil {
+				return fmt.Sprintf("removing a child and its parent panicked: %v", p)
+			}
+			r.ents[i] = nil
+			r.label("relation table retired (then types are registered, then it is reused)")
+			break
+		}
 	case "fan":
 		// more relation tables in one node than a storage page holds (32); the last children are tracked
 		rt := -1
@@ -531,13 +578,17 @@ func runRegCase(c *regReplay) (msg string, labels map[string]bool, nontrivial bo
 		if m := r.checkEntities(); m != "" {
 			return fmt.Sprintf("after op %d %+v: %s", k, op, m), r.labels, r.nontri
 		}
+		if err := core.CheckInvariants(r.w); err != nil {
+			// e.g. a table whose layout array is shorter than the registry: reads of high IDs go out of bounds
+			return fmt.Sprintf("after op %d %+v: structural invariant broken: %v", k, op, err), r.labels, r.nontri
+		}
 	}
 	return "", r.labels, r.nontri
 }
 
 func TestC16(t *testing.T) {
 	withStats(t, "C16", func(st *core.Stats) {
-		st.Rule = "sequences interleaving registrations of generated type shapes (ecs.Relation embedded first / embedded later / absent; structs, arrays, zero-sized, non-struct) with entity creation, Add/Assign/Remove/Set of components drawn with a bias to the newest and highest IDs, re-registration of known types, registration in a locked world, filling the registry to the limit and one registration more, and the same for the resource registry; after every op: ComponentIDs/ComponentInfo dense, stable and consistent, IsRelation <=> relation embedded first, and every tracked entity is read through EVERY registered ID (Has/Get/Mask, value bytes, Query(All(id)) finds it, Query.Get == World.Get); rejected registrations leave the registry unchanged and the next successful one gets the expected ID; non-trivial = a component whose type was registered after an entity's table existed, in a later 16-ID layout chunk, was added to that entity and read back"
+		st.Rule = "sequences interleaving registrations of generated type shapes (ecs.Relation embedded first / embedded later / absent; structs, arrays, zero-sized, non-struct) with entity creation, Add/Assign/Remove/Set of components drawn with a bias to the newest and highest IDs, re-registration of known types, registration in a locked world, filling the registry to the limit and one registration more, relation tables that are retired, outlive further registrations and are reused, and the same for the resource registry; after every op: ComponentIDs/ComponentInfo dense, stable and consistent, IsRelation <=> relation embedded first, and every tracked entity is read through EVERY registered ID (Has/Get/Mask, value bytes, Query(All(id)) finds it, Query.Get == World.Get); rejected registrations leave the registry unchanged and the next successful one gets the expected ID; non-trivial = a component whose type was registered after an entity's table existed, in a later 16-ID layout chunk, was added to that entity and read back"
 		if path, ok := replaying(); ok {
 			var r regReplay
 			if err := core.ReadReplay(path, &r); err != nil {
@@ -560,7 +611,7 @@ func TestC16(t *testing.T) {
 					c.Ops = append(c.Ops, regOp{K: "new", T: []int{-1, 0}, E: 0})
 				}
 			}
-			kinds := []string{"reg", "reg", "reg", "reg", "rereg", "new", "new", "add", "add", "add", "rem", "write", "write", "rment", "lockreg", "regres", "fill", "fillres", "fan"}
+			kinds := []string{"reg", "reg", "reg", "reg", "rereg", "new", "new", "add", "add", "add", "rem", "write", "write", "rment", "lockreg", "regres", "fill", "fillres", "fan", "relnew", "relnew", "retire"}
 			for i := 0; i < nops; i++ {
 				k := rapid.SampledFrom(kinds).Draw(rt, "k")
 				if (k == "fill" || k == "fillres") && rapid.IntRange(0, 3).Draw(rt, "rare") != 0 {
